@@ -84,6 +84,9 @@ pub fn bfs(spec: &BfsSpec) -> BfsResult {
         match &r[0] {
             CaseRes::Done(v) => {
                 let rep: StepReport = serde_json::from_value(v.clone()).unwrap_or_default();
+                if !rep.outcome.is_empty() {
+                    res.outcomes.insert(rep.outcome.clone());
+                }
                 if rep.status == "ok" || rep.status == "known" {
                     seen.insert(rep.key.clone());
                     res.states = 1;
@@ -95,6 +98,18 @@ pub fn bfs(spec: &BfsSpec) -> BfsResult {
                         let v = Violation { hist: vec![], script: vec!["(seed state only)".into()], detail: rep.detail.clone(), seed_state: spec.seed_label.clone() };
                         res.known.entry(f.clone()).or_insert_with(|| (0, v)).0 += 1;
                     }
+                } else if rep.status == "violation" {
+                    // the seed prefix itself (empty history) already violates the property
+                    res.states = 1;
+                    res.transitions = 1;
+                    let v = Violation { hist: vec![], script: vec!["(seed prefix only)".into()], detail: rep.detail.clone(), seed_state: spec.seed_label.clone() };
+                    if rep.reproduced >= 2 {
+                        res.violations.push(v);
+                    } else {
+                        res.unstable.push(v);
+                    }
+                    res.samples.push(vec!["(seed prefix only)".into()]);
+                    return res;
                 } else {
                     res.machinery.push(format!("seed state '{}' does not execute cleanly: {} {}", spec.seed_label, rep.status, rep.detail));
                     return res;
